@@ -312,7 +312,7 @@ theorem getBit_eq (buffer : List Nat) (p : Nat) :
 
 theorem readN_cons (k : Nat) (b : Bool) (bs : Bits) :
     readN (k+1) (b :: bs) = (readN k bs).map fun (x, r) => (b2n b + 2 * x, r) := by
-  unfold readN
+  rw [readN_eq, readN_eq]
   simp only [List.length_cons, Nat.add_lt_add_iff_right, List.take_succ_cons, bitsNat,
     List.drop_succ_cons]
   split <;> simp [b2n]
@@ -373,7 +373,7 @@ theorem readWord_spec (b : Buf) (n : Nat) :
 
 theorem readN_rest {n : Nat} {bs : Bits} {x : Nat} {r : Bits} (h : readN n bs = some (x, r)) :
     r = bs.drop n ∧ n ≤ bs.length := by
-  unfold readN at h
+  rw [readN_eq] at h
   split at h
   · cases h
   · simp only [Option.some.injEq, Prod.mk.injEq] at h
